@@ -11,7 +11,7 @@
    expect   what the property text demands to be reported for the message
    known    decidable classes of well-formed messages on which the unchanged code is known to
             deviate from `expect` (findings; each has a witness lemma in Proofs/).
-            Repaired and removed: gate methods (4eff695), tag case (050bdf8), weight OWS (b696a82). *)
+            Repaired and removed: weight literal written "Q=", duplicate Cookie headers, gate methods (4eff695), tag case (050bdf8), weight OWS (b696a82). *)
 From Coq Require Import List NArith Bool.
 From Coq Require Import Strings.Byte.
 From HN Require Import Base.Bytes Base.Http1Text Model.SigAst Model.Http1 Model.Lang Model.Http1Obs
@@ -127,10 +127,6 @@ Definition spec_lang (items : list lang_item) : lang_res :=
   | None => LNone
   end.
 
-(* finding class for Accept-Language: the weight literal written "Q=" is not recognised (read as 1.0) *)
-Definition known_upper_q (items : list lang_item) : bool :=
-  existsb (fun i => li_qupper i && match li_weight i with Some _ => true | None => false end) items.
-
 (* ---------- cookies (RFC 6265 4.2.1: cookie-pair *( ";" SP cookie-pair ), read tolerantly) ---------- *)
 Fixpoint drop_ows (l : bytes) : bytes :=
   match l with b :: r => if is_ows_byte b then drop_ows r else l | [] => [] end.
@@ -237,14 +233,4 @@ Definition expect_response (m : msg) (v11 : bool) (st : bytes) : resp_report :=
                  hs_expsw := software (first_named (bs "server") reported) |} |}.
 
 (* ---------- known deviations (findings) ---------- *)
-(* more than one Cookie header: only the last one is reported *)
-Definition known_cookies (m : msg) : bool :=
-  is_request m && (1 <? N.of_nat (length (filter (named (bs "cookie")) (m_headers m)))).
-(* Accept-Language elements of the first Accept-Language header *)
-Definition lang_items (m : msg) : list lang_item :=
-  match find (named (bs "accept-language")) (m_headers m) with
-  | Some h => match hl_value h with VLang items => items | VRaw _ => [] end
-  | None => [] end.
-(* a weight whose literal is written "Q=" is read as 1.0 *)
-Definition known_lang (m : msg) : bool := is_request m && known_upper_q (lang_items m).
-Definition known (m : msg) : bool := known_cookies m || known_lang m.
+Definition known (m : msg) : bool := false.
